@@ -95,6 +95,22 @@ def check_body(text):
     return body
 
 
+OFFSET_KINDS = ("B", "BCOND", "ADR", "ADRP", "TBZ")
+
+
+def offset_arm_text(text, kind):
+    m = re.search(r"Command::Offset\(relocation\)\s*=>\s*match\s+relocation\s*\{", text)
+    if not m:
+        raise Untranslatable("arm Command::Offset not found")
+    i = m.end() - 1
+    blk = text[i + 1:rt.matching(text, i) - 1]
+    mk = re.search(r"Relocation::" + kind + r"\s*=>\s*\{", blk)
+    if not mk:
+        raise Untranslatable(f"Offset: arm Relocation::{kind} not found")
+    j = mk.end() - 1
+    return blk[j + 1:rt.matching(blk, j) - 1]
+
+
 def arm_text(text, name):
     m = re.search(r"Command::" + name + r"\(([^)]*)\)\s*=>\s*\{", text)
     if not m:
@@ -110,14 +126,18 @@ def translate_arm(text, helpers, chk, name, args):
     """returns (ok IR, contribution IR (32 bit) or None) over the variable v (64 bit)"""
     if name == "Special":
         return translate_special(text, helpers, args[0], args[1])
-    arm = arm_text(text, name)
+    if name == "Offset":
+        arm = offset_arm_text(text, args[0])
+        args = []
+    else:
+        arm = arm_text(text, name)
     m_if = re.search(r"\bif\b", arm)
     if not m_if:
         raise Untranslatable(f"{name}: no static branch")
     prelude, rest = arm[:m_if.start()], arm[m_if.start():]
     s = SSym(helpers, True)
     lists = {}
-    for p, a in zip(SUPPORTED[name], args):
+    for p, a in zip(SUPPORTED.get(name, ()), args):
         if isinstance(a, list):
             lists[p] = a
             arm = arm.replace(f"{p}.len()", f"{len(a)}usize")
@@ -126,7 +146,7 @@ def translate_arm(text, helpers, chk, name, args):
     m_if = re.search(r"\bif\b", arm)
     prelude, rest = arm[:m_if.start()], arm[m_if.start():]
     if prelude.strip() and name not in COUPLED:
-        for st in rx.P(rx.tokenize("{" + prelude + "}")).block()[1]:
+        for st in rx.P(rx.tokenize("{" + prelude + " ; }")).block()[1]:
             s.exec_stmt(st)
 
     def run_check(a_, b_, c_):
@@ -208,7 +228,7 @@ def translate_arm(text, helpers, chk, name, args):
             idx = N("ite", (hit, const(i, 32), idx), 32)       # later matches win: rposition
         o = fold(s.coerce(s.run(rx.parse(ml.group(1))), TYPES["u8"]).n)
         return fold(found), fold(N("shl", (idx, const(o.k, 32)), 32)), bfalse()
-    ma = re.match(r"if\s+let\s+Some\(\((\w+),\s*(\w+)\)\)\s*=\s*static_range_check\(value,\s*([^,]+),\s*([^,]+),\s*([^)]+)\)\?\s*\{\s*statics\.push\(\((\w+),\s*(.*?)\)\);\s*\}\s*else", rest, flags=re.S)
+    ma = re.match(r"if\s+let\s+Some\(\((\w+),\s*(\w+)\)\)\s*=\s*static_range_check\(value,\s*([^,]+),\s*([^,]+),\s*([^)]+)\)\?\s*\{((?:\s*statics\.push\(\(\w+,\s*[^;]*\)\);)+)\s*\}\s*else", rest, flags=re.S)
     mb = re.match(r"if\s+let\s+Some\(value\)\s*=\s*(as_unsigned_number|as_signed_number)\(value\)\s*\{\s*statics\.push\(\((\w+),\s*(.*?)\)\);\s*\}\s*else", rest, flags=re.S)
     mc = re.match(r"if\s+static_range_check\(value,\s*([^,]+),\s*([^,]+),\s*([^)]+)\)\?\.is_none\(\)\s*\{", rest, flags=re.S)
     if ma:
@@ -216,7 +236,15 @@ def translate_arm(text, helpers, chk, name, args):
         for nm, val in ((ma.group(1), biased), (ma.group(2), scaled)):
             if nm != "_":
                 s.env[nm] = val
-        off, expr = ma.group(6), ma.group(7)
+        pushes = re.findall(r"statics\.push\(\((\w+),\s*([^;]*)\)\);", ma.group(6))
+        word = const(0, 32)
+        for off, expr in pushes:
+            o = fold(s.coerce(s.run(rx.parse(off)), TYPES["u8"]).n)
+            val = s.coerce(s.run(rx.parse(expr)), TYPES["u32"])
+            if o.op != "const" or o.k >= 32 or val.ty[0] != 32:
+                raise Untranslatable(f"{name}: push ({off}, {expr})")
+            word = N("or", (word, N("shl", (val.n, const(o.k, 32)), 32)), 32)
+        return ok, fold(word), fold(s.panic)
     elif mb:
         ok = btrue()
         s.env["value"] = rx.Val(rx.var("v", 64), TYPES["u64" if mb.group(1) == "as_unsigned_number" else "i64"])
@@ -249,7 +277,7 @@ def groups_of_table():
             continue
         for idx, g in sorted(encgen.group_commands(rustdebug.parse(r["commands"])).items()):
             names = [encgen.name_of(c) for c in g]
-            if not names or not all(n in SUPPORTED or (n == "Special" and c[2] in SPECIAL_INT) for n, c in zip(names, g)):
+            if not names or not all(n in SUPPORTED or (n == "Special" and c[2] in SPECIAL_INT) or (n == "Offset" and c[1] in OFFSET_KINDS) for n, c in zip(names, g)):
                 continue
             key = encgen.lean_cmds(g)
             if key in seen:
